@@ -11,23 +11,29 @@ class _Ctx:  # minimal context for pre_coq hooks
     def note(self, s): self.notes.append(s)
 
 ok = True
-for f in sorted(glob.glob(os.path.join(HERE, "props", "C*.py"))):
-    pid = os.path.basename(f)[:-3]
+ready = open(os.path.join(HERE, "tools", "ready.txt")).read().split()
+targets, runners = [], []
+for pid in ready:
+    f = os.path.join(HERE, "props", pid + ".py")
     mod = importlib.import_module("props." + pid)
     if hasattr(mod, "pre_coq"):
         try:
             mod.pre_coq(_Ctx(pid))
         except Exception as e:
             print("pre_coq %s failed: %r" % (pid, e)); ok = False
-good, log = framework.coq_make(None, timeout=3400)
+    targets.append("theories/" + getattr(mod, "THEOREM_FILE", "Prop/%s.v" % pid) + "o")
+    for x in getattr(mod, "EXTRACTS", []):
+        targets.append("theories/Extract/X_%s.vo" % x)
+        runners.append(x.lower())
+targets = sorted(set(targets))
+good, log = framework.coq_make(targets, timeout=3400)
 open(os.path.join(framework.WORK, "setup_coq.log"), "w").write(log)
 if not good:
     print(log[-3000:]); print("COQ BUILD FAILED"); sys.exit(1)
-bad = framework.audit_sources()
+bad = framework.audit_sources([t[len("theories/"):-1] for t in targets])
 if bad:
     print("forbidden declarations:", bad); sys.exit(1)
-for d in sorted(glob.glob(os.path.join(HERE, "ocaml", "drv_*.ml"))):
-    name = os.path.basename(d)[4:-3]
+for name in sorted(set(runners)):
     framework.build_runner(name)
     print("built model runner", name)
 print("setup ok" if ok else "setup finished with pre_coq failures")
